@@ -190,7 +190,16 @@ impl SequenceNumberCounter {
 }
 pub struct WriteBufferManager { pub dummy: u8 }
 impl WriteBufferManager { #[verifier::external_body] pub fn allocate(&self, n: u64) -> (r: u64) { unimplemented!() } }
-pub struct Supervisor { pub seqno: SequenceNumberCounter, pub write_buffer_size: WriteBufferManager }
+pub struct SnapshotTrackerH { pub dummy: u8 }
+impl SnapshotTrackerH {
+    // SnapshotTracker::set (proved in U-TRACKER: `seqno.fetch_max(value)` on the visible-seqno counter)
+    #[verifier::external_body]
+    pub fn set(&self, value: u64, Tracked(w): Tracked<&mut World>)
+        requires old(w).recovering,
+        ensures *final(w) == (World { visible: if value > old(w).visible { value } else { old(w).visible }, ..*old(w) }),
+    { unimplemented!() }
+}
+pub struct Supervisor { pub seqno: SequenceNumberCounter, pub write_buffer_size: WriteBufferManager, pub snapshot_tracker: SnapshotTrackerH }
 // Database.keyspace_id_counter (a SequenceNumberCounter used as id allocator)
 pub struct IdCounter { pub dummy: u8 }
 impl IdCounter {
